@@ -16,6 +16,10 @@ spec/CmdSearch.tla, written from POSIX XCU 2.6.1 / 2.9.1.4 / `command` / `type` 
     running the name, `command name`, `command -p name`; harness/g04 establishes each state and compares
     (which built-in / function / file ran: probe built-ins of every type, Process::last_exec).
  B2 impl -> spec: random states with several names, longer $PATH, sub-directories; Trace_CmdSearch judges.
+ B3 spec -> impl on the REAL kernel: the PATH search part (family "X": names nno / true, directories under the
+    working directory, every file kind, names with a slash) is replayed with RealSystem in a scratch directory
+    (executables are #!/bin/sh scripts printing `RAN $0 $*`), so that the search is also bound to a kernel that is
+    not the simulator of /repo.
 """
 import json
 import os
@@ -27,9 +31,10 @@ PID = "G04"
 PKG = "yv-g04"
 
 TIERS = {
-    "quick": dict(tilde="Gen_Tilde_quick.cfg", cs="Gen_CmdSearch_quick.cfg", ntilde=20000, ncs=1500, timeout=600),
-    "thorough": dict(tilde="Gen_Tilde_thorough.cfg", cs="Gen_CmdSearch_thorough.cfg", ntilde=150000, ncs=15000,
-                     timeout=2400),
+    "quick": dict(tilde="Gen_Tilde_quick.cfg", cs="Gen_CmdSearch_quick.cfg", real="Gen_CmdSearch_real_quick.cfg",
+                  ntilde=20000, ncs=1500, timeout=600),
+    "thorough": dict(tilde="Gen_Tilde_thorough.cfg", cs="Gen_CmdSearch_thorough.cfg", real="Gen_CmdSearch_real_thorough.cfg",
+                     ntilde=150000, ncs=15000, timeout=2400),
 }
 
 SHARD = 40000
@@ -230,6 +235,27 @@ def run(tier):
         vlib.log(f"NOTE: outcomes of the specification not exercised by the enumeration: {not_exercised}")
     os.remove(gen)
 
+    # B3. the PATH search on the real kernel
+    gen = os.path.join(wd, "cs-real.ndjson")
+    r = vlib.tlc("Gen_CmdSearch", cfg["real"], workers=8, timeout=cfg["timeout"], env={"SEED": str(vlib.seed())}, json_out=gen)
+    vlib.tlc_must_pass(r, f"enumeration {cfg['real']}")
+    totals["states"] += r.distinct
+    totals["transitions"] += r.generated
+    nlines = vlib.count_lines(gen)
+    mism = os.path.join(wd, "cs-real-mismatch.ndjson")
+    _, out, _ = vlib.run_harness(PKG, ["cs-replay", "--real", "--in", gen, "--out", mism, "--threads", "8"])
+    s_r = _summary(out)
+    if s_r["states"] != nlines - 1:
+        raise vlib.ToolError(f"real-OS replay covered {s_r['states']} of {nlines - 1} states")
+    for rec in vlib.read_ndjson(mism):
+        key = _cs_key("spec->real", rec, _short(rec["query"], rec["exp"]), _short(rec["query"], rec["obs"]))
+        key["first_exec_or_dir"] = key["relative_exec"] = "real"      # the findings about the simulator do not apply
+        detail = (f"real OS: `{rec['query']}` of {rec['name']} in [{key['state']}]: specified {rec['exp']}, observed {rec['obs']}")
+        rep.violation(key, detail, {"kind": "cs", "real": True, "S": rec["S"], "name": rec["name"], "query": rec["query"]})
+    vlib.log(f"[p4->] command search on the real kernel: {s_r['queries']} queries in {s_r['states']} states replayed "
+             f"({r.wall:.1f}s TLC): {s_r['mismatches']} mismatches")
+    os.remove(gen)
+
     # B2. command search, impl -> spec
     trace = os.path.join(wd, "cs-random.ndjson")
     vlib.run_harness(PKG, ["cs-random", "--n", cfg["ncs"], "--out", trace, "--threads", "8"])
@@ -252,14 +278,14 @@ def run(tier):
     os.remove(trace)
 
     rc = rep.finish()
-    evaluations = s_t["cases"] + t_judged + s_c["queries"] + (n2 - c_skipped)
+    evaluations = s_t["cases"] + t_judged + s_c["queries"] + s_r["queries"] + (n2 - c_skipped)
     vlib.write_evidence(PID, tier, {
         "states": totals["states"],
         "transitions": totals["transitions"],
         "traces_validated_against_impl": evaluations,
         "samples": samples,
         "evaluations": evaluations,
-        "distinct_nontrivial": s_t["cases"] + s_c["queries"],
+        "distinct_nontrivial": s_t["cases"] + s_c["queries"] + s_r["queries"],
         "rule": "distinct (context, word, HOME, shell state) vectors and (shell state, name, query) vectors enumerated by TLC "
                 "and executed on the real shell; random recorded vectors counted separately",
         "exhaustive": tier == "thorough",
@@ -270,7 +296,7 @@ def run(tier):
                               "function x alias x options x permutations of <= 3 of 4 PATH directories x file kinds"
                             + ("" if tier == "thorough" else " (a seeded 1/12 sample)")
                             + ", names with a slash, command -p, reserved words"),
-        "bounds": {"tilde_enumeration": cfg["tilde"], "cmdsearch_enumeration": cfg["cs"],
+        "bounds": {"tilde_enumeration": cfg["tilde"], "cmdsearch_enumeration": cfg["cs"], "cmdsearch_real": cfg["real"],
                    "random_tilde_records": cfg["ntilde"], "random_cmdsearch_states": cfg["ncs"]},
         "tilde_spec_to_impl": {k: s_t[k] for k in ("words", "cases", "mismatches", "runs", "per_ctx")},
         "tilde_impl_to_spec": {"records": n, "judged": t_judged, "skipped": t_skipped, "rejected": t_rej,
@@ -279,6 +305,7 @@ def run(tier):
         "cmdsearch_outcome_coverage": s_c["tags"],
         "cmdsearch_outcomes_not_exercised": not_exercised,
         "cmdsearch_impl_to_spec": {"records": n2, "skipped": c_skipped, "rejected": c_rej},
+        "cmdsearch_real_kernel": {k: s_r[k] for k in ("states", "queries", "mismatches", "tags")},
         "known_finding_hits": {fid: cnt for fid, (_f, cnt) in rep.known_hits.items()},
     }, time.time() - t0, violations=len(rep.violations), assumptions=[
         "unknown login name (undefined in POSIX) and unset HOME (unspecified in POSIX) follow the manual: the tilde-prefix "
@@ -308,7 +335,7 @@ def replay(path):
     with open(src, "w") as f:
         f.write(json.dumps(rec) + "\n")
     t = os.path.join(wd, "one.ndjson")
-    vlib.run_harness(PKG, ["one", "--in", src, "--out", t])
+    vlib.run_harness(PKG, ["one", "--in", src, "--out", t] + (["--real"] if rec.get("real") else []))
     module = "Trace_CmdSearch" if rec.get("kind") == "cs" else "Trace_Tilde"
     r = vlib.tlc(module, module + ".cfg", workers=1, timeout=300, env={"TRACE": os.path.abspath(t)})
     vlib.tlc_must_pass(r, "replay validation")
